@@ -139,6 +139,20 @@ impl Append for ConsoleAppender {
     fn flush(&self) {}
 }
 
+#[cfg(log4rs_verif)]
+#[doc(hidden)]
+impl ConsoleAppender {
+    /// Whether `append` writes at all (the `tty_only` decision taken by `build`).
+    pub fn verif_do_write(&self) -> bool {
+        self.do_write
+    }
+
+    /// Whether the colour-capable writer was selected.
+    pub fn verif_colour(&self) -> bool {
+        self.writer.is_tty()
+    }
+}
+
 impl ConsoleAppender {
     /// Creates a new `ConsoleAppender` builder.
     pub fn builder() -> ConsoleAppenderBuilder {
